@@ -56,3 +56,16 @@ func (s *Server) SimShards() []int64 {
 	}
 	return r
 }
+
+// SimEntryTimestamp, when set, supplies the timestamp a leader stamps a new log entry with (production:
+// the node's wall clock).  The simulator uses it to give the leaders of different terms clocks that
+// disagree by a little, so that timestamps in one log can step backwards across a leader change.
+var SimEntryTimestamp func(namespace string, shard int64, term int64, now uint64) uint64
+
+func simEntryTimestamp(namespace string, shard int64, term int64, now uint64) uint64 {
+	if SimEntryTimestamp != nil {
+		return SimEntryTimestamp(namespace, shard, term, now)
+	}
+	return now
+}
+
